@@ -37,7 +37,7 @@ func (c18) NRuns(tier string) int {
 	return 6000
 }
 func (c18) Rule() string {
-	return "each run = G tasks (1..8, thorough up to 64) running random programs over Acquire/hold/Release(pool)/Release(name)/double release/Release(nil) on one namepool, sync.Pool replaced by a seeded model with drop-on-put, any-item-on-get and GC-empties-pool faults; non-trivial = at least two tasks held names concurrently or a pooled id was reused; distinct = distinct hash of the (task,site) schedule trace"
+	return "each run = G tasks (1..8, thorough up to 64) running random programs over Acquire/hold/Release(pool)/Release(name)/double release/Release(nil) on one namepool (12% wide: each task first holds 6..45 names at once, releases them all, some twice, then continues), sync.Pool replaced by a seeded model with drop-on-put, any-item-on-get and GC-empties-pool faults; non-trivial = at least two tasks held names concurrently or a pooled id was reused; distinct = distinct hash of the (task,site) schedule trace"
 }
 func (c18) Components() map[string]string {
 	return map[string]string{"namepool": "real (rewritten)", "sync.Pool": "stub: simrt.Pool contract model", "sync/atomic": "real atomics behind a scheduling point", "goroutine scheduling": "simulated (simrt baton scheduler)"}
@@ -55,7 +55,11 @@ func (c18) Gen(r *Rand, idx int, tier string) interface{} {
 	if r.Pct(50) && g > 4 {
 		g = 2 + r.Intn(3)
 	}
-	long := r.Pct(3)
+	wide := !r.Pct(88)
+	if wide {
+		g = 1 + r.Intn(3)
+	}
+	long := !wide && r.Pct(3)
 	if long {
 		g = 2 // few holders, many acquisitions: the pool-eviction faults drive the id counter far up
 	}
@@ -69,6 +73,20 @@ func (c18) Gen(r *Rand, idx int, tier string) interface{} {
 		}
 		var prog []c18Op
 		slots := 1 + r.Intn(3)
+		if wide {
+			// many names held at once, all released (some twice), then ordinary traffic over the same variables
+			slots = 6 + r.Intn(40)
+			for i := 0; i < slots; i++ {
+				prog = append(prog, c18Op{Op: "acq", Slot: i})
+			}
+			for i := 0; i < slots; i++ {
+				prog = append(prog, c18Op{Op: Pick(r, []string{"relp", "reln"}), Slot: i})
+				if r.Pct(25) {
+					prog = append(prog, c18Op{Op: Pick(r, []string{"relp", "reln"}), Slot: r.Intn(i + 1)})
+				}
+			}
+			n = slots
+		}
 		for i := 0; i < n; i++ {
 			s := r.Intn(slots)
 			switch c := r.Intn(20); {
@@ -363,6 +381,26 @@ func (c18) Run(plan interface{}, schedSeed uint64, replay []simrt.Choice, lenien
 	}
 	if concurrent || reused {
 		v.Nontrivial = fmt.Sprintf("%016x", out.LogHash)
+	}
+	if len(all) > 0 {
+		maxLive := 0
+		for _, a := range all {
+			n := 0
+			for _, b := range all {
+				if b.from <= a.from && end(b) > a.from {
+					n++
+				}
+			}
+			if n > maxLive {
+				maxLive = n
+			}
+		}
+		if maxLive > 16 {
+			v.Probe("more-than-16-held-at-once")
+		}
+		if maxLive > 40 {
+			v.Probe("more-than-40-held-at-once")
+		}
 	}
 	v.Sample = map[string]interface{}{"format": p.Format, "tasks": len(p.Progs), "holds": len(all), "steps": out.Steps}
 	return v, out
